@@ -14,6 +14,9 @@ ASSUMPTIONS = {
     "A-pids": "keys of the process table are the pids of started, un-reaped children; the OS gives no new child the pid of an un-reaped one",
     "A-psutil": "psutil's memory probe of the worker's own pid does not raise",
     "A-tracker-stable": "the resource tracker does not die between two consecutive liveness probes of one process launch",
+    "A-kernel-sem": "_multiprocessing.SemLock implements a counting semaphore / recursive mutex as documented (value never negative, release refused above maxvalue, "
+                    "mutex re-entrant for its owning thread only)",
+    "A-monitor": "an Event's flag semaphore holds 0 or 1 whenever its condition's lock is acquired",
     "A-spawn": "queues do not send objects while a process object is being pickled for launch",
     "A-fds": "descriptors recorded in a Popen's keep list are open descriptors of this process",
     "A-finalize": "util.Finalize callbacks run when the object is collected or at interpreter exit",
@@ -103,6 +106,64 @@ def scan_worker_spawn_sites(repo, tier, seed):
                         sites.append(f"{rel}:{fn.name}(direct call)")
     ok = sorted(set(sites)) == ["loky/process_executor.py:_adjust_process_count"]
     return [_ob("loky.process_executor:<module>:structural/single-worker-spawn-site", ok, f"sites creating workers: {sorted(set(sites))}")]
+
+
+def scan_semaphore_sites(repo, tier, seed):
+    """C13: kernel semaphores are created only inside SemLock.__init__ (which registers them) and unlinked only by SemLock._cleanup and
+    the tracker's clean-up table; every primitive of synchronize.py is a SemLock or built from SemLocks."""
+    create, unlink = [], []
+    for dirpath, _dirs, files in _os.walk(_os.path.join(repo, "loky")):
+        for fn_ in files:
+            if not fn_.endswith(".py"):
+                continue
+            rel = _os.path.relpath(_os.path.join(dirpath, fn_), repo)
+            tree = _scan(repo, rel)
+
+            def walk(node, scope):
+                for ch in _ast.iter_child_nodes(node):
+                    sc = scope
+                    if isinstance(ch, (_ast.FunctionDef, _ast.ClassDef)):
+                        sc = scope + [ch.name]
+                    if isinstance(ch, _ast.Call):
+                        f = _ast.unparse(ch.func)
+                        if f in ("_SemLock", "_multiprocessing.SemLock", "SemLockC"):
+                            create.append(f"{rel}:{'.'.join(scope)}")
+                    if isinstance(ch, (_ast.Name, _ast.Attribute)) and _ast.unparse(ch) in ("sem_unlink", "_multiprocessing.sem_unlink", "_sem_unlink") \
+                            and isinstance(getattr(ch, "ctx", None), _ast.Load):
+                        unlink.append(f"{rel}:{'.'.join(scope) or '<module>'}")
+                    walk(ch, sc)
+            walk(tree, [])
+    ok_c = sorted(set(create)) == ["loky/backend/synchronize.py:SemLock.__init__"]
+    ok_u = set(unlink) <= {"loky/backend/synchronize.py:SemLock._cleanup", "loky/backend/resource_tracker.py:<module>", "loky/backend/synchronize.py:<module>"} \
+        and "loky/backend/synchronize.py:SemLock._cleanup" in unlink
+    tree = _scan(repo, "loky/backend/synchronize.py")
+    bases = {n.name: [_ast.unparse(b) for b in n.bases] for n in tree.body if isinstance(n, _ast.ClassDef)}
+    ok_b = all(bases.get(k) == v for k, v in {"Semaphore": ["SemLock"], "BoundedSemaphore": ["Semaphore"], "Lock": ["SemLock"], "RLock": ["SemLock"]}.items())
+    return [_ob("loky.backend.synchronize:<module>:structural/semaphores-created-only-by-the-registering-constructor", ok_c, f"creation sites: {sorted(set(create))}"),
+            _ob("loky.backend.synchronize:<module>:structural/semaphores-unlinked-only-by-cleanup-and-tracker", ok_u, f"sem_unlink uses: {sorted(set(unlink))}"),
+            _ob("loky.backend.synchronize:<module>:structural/every-lock-class-is-a-semlock", ok_b, f"bases: {bases}")]
+
+
+def lemma_semaphore_holders(repo, tier, seed):
+    """C14: over the kernel semaphore model (value = initial + releases - acquires, never negative, release refused at maxvalue for a
+    bounded one) at most `initial` holders coexist, and a bounded semaphore never exceeds its bound."""
+    import time
+    import z3
+    t0 = time.time()
+    v0, acq, rel, val, mx = z3.Ints("v0 acq rel val maxvalue")
+    model = z3.And(val == v0 + rel - acq, val >= 0, acq >= 0, rel >= 0)
+    goals = {"lemma/at-most-initial-value-holders": z3.Implies(model, acq - rel <= v0),
+             "lemma/lock-is-mutual-exclusion": z3.Implies(z3.And(model, v0 == 1), acq - rel <= 1),
+             "lemma/bounded-semaphore-never-above-its-bound":
+                 z3.Implies(z3.And(model, val <= mx, mx == v0), z3.And(rel - acq <= 0, z3.Implies(val == mx, val + 1 > mx)))}
+    out = []
+    for nm, g in goals.items():
+        s = z3.Solver()
+        s.add(z3.Not(g))
+        r = s.check()
+        out.append({"name": f"loky.backend.synchronize:<model>:{nm}", "status": str(r), "backend": "z3", "secs": time.time() - t0, "kind": "lemma",
+                    "function": "", "path": [], "model": "" if r == z3.unsat else str(s.model() if r == z3.sat else "")})
+    return out
 
 
 EXEC_ABS = COMMON_ABS + ["one manager-thread method is treated as atomic w.r.t. the executor's tables (A-atomic)"]
@@ -418,4 +479,37 @@ PROPS["C12"] = dict(
                 "the loky_init_main path beyond sharing _launch.",
     assumptions=["A-kernel", "A-warn", "A-fds", "A-tracker-stable", "A-posix"],
     abstractions=EXEC_ABS,
+)
+
+SYNC_ABS = COMMON_ABS + ["a kernel semaphore is the ghost triple (acquires, releases, value): a non-blocking acquire succeeds iff value >= 1, a blocking one "
+                         "may first wait for releases by others, release may be refused (ValueError); no other thread runs inside one method except where the "
+                         "method itself releases the lock (Condition.wait havocs every semaphore value)"]
+PROPS["C13"] = dict(
+    proved="every kernel semaphore is created inside SemLock.__init__ (structural scan over loky/), which creates exactly one, registers its name with the tracker "
+           "right after and installs the finalizer (in that order; a failed creation registers nothing); generated names lie in this process's /loky-<pid>- namespace "
+           "(both name generators); the finalizer unlinks the name once and then always unregisters it, also when it was already unlinked or the unlink fails; "
+           "unpickled copies (__setstate__) attach by name and neither create, register nor install a finalizer; at end of life the tracker destroys every "
+           "still-registered semlock name exactly once (sweep, shared with C11) after leaving its loop only at end of file.",
+    not_covered="that garbage collection / interpreter exit run the finalizer (A-finalize); that end of file reaches the tracker when the last process of the tree "
+                "dies, including SIGKILL (A-kernel); the namespace listing itself; 'no leaked warning for released objects' follows from UNREGISTER forgetting the "
+                "name (C11 step) but the interleaving of that message with the tracker's exit is a schedule.",
+    assumptions=["A-finalize", "A-kernel", "A-warn", "A-posix"],
+    abstractions=SYNC_ABS,
+    extra=[scan_semaphore_sites],
+)
+PROPS["C14"] = dict(
+    proved="sequential contracts of every primitive: Lock = SEMAPHORE(1,1), RLock = RECURSIVE_MUTEX(1,1), Semaphore(n) = SEMAPHORE(n, SEM_VALUE_MAX), "
+           "BoundedSemaphore(n) = SEMAPHORE(n, n), each a fresh kernel object starting at n (with the holder-count lemma over the kernel model); acquire/release and "
+           "the with-statement forward to the kernel object, pickling ships (handle, kind, maxvalue, name) and rebuilds from exactly those; Condition.__init__ "
+           "establishes three distinct zeroed counters; wait() announces itself, releases the lock as often as held, sleeps on the wait semaphore with the caller's "
+           "timeout, reports the outcome of that sleep, always announces being woken and re-acquires the lock as often, also when interrupted; notify() wakes at most "
+           "one and exactly one iff it took a sleeper token, waits for it; notify_all() re-zeroes the woken counter pairwise with sleeper tokens, wakes one waiter per "
+           "token and waits for each; wait_for re-tests after every wait; Event: flag in {0,1} under the condition's lock, set() leaves 1 before notifying all, "
+           "clear() leaves 0, is_set() reads without changing, wait() sleeps only when it found the flag clear and returns True iff the flag is set at its final test; "
+           "the LokyContext factories build exactly these classes with the caller's arguments.",
+    not_covered="everything about interleavings between threads/processes: lost wake-ups, time-outs firing between the notifier's two semaphore steps, fairness, "
+                "'every waiter is woken by a later notify_all' as a liveness claim; the kernel semaphore itself (A-kernel-sem). These clauses of C14 are not claimed.",
+    assumptions=["A-kernel-sem", "A-monitor", "A-posix"],
+    abstractions=SYNC_ABS,
+    extra=[lemma_semaphore_holders],
 )
